@@ -38,6 +38,7 @@ def fragBitFn (fn : BitFn) (a : List Nat) (n : Nat) : Frag :=
     | .setBit =>
       if isSmall a then
         if n < 2 * W then { ops := [dwOp W 2 (va ||| 2 ^ n)] }
+        else if idx + 1 > mx then { ops := [], panic := some .allocTooMuch }     -- `Buffer::allocate(idx + 1)`
         else
           -- `with_bit_dword_spilled`
           { ops := [.allocate 2 (idx + 1), .push 2 (va % 2 ^ W), .push 2 (va / 2 ^ W), .pushZeros 2 (idx - 2), .push 2 bit,
@@ -45,9 +46,10 @@ def fragBitFn (fn : BitFn) (a : List Nat) (n : Nat) : Frag :=
       else
         -- `with_bit_large`
         if idx < la then { ops := [.overwrite 0 (toWords W la (va ||| 2 ^ n)), .fromBuffer 0], res := 0 }
+        else if idx + 1 > mx then { ops := [], panic := some .allocTooMuch, cleanup := [.drop 0] }   -- `ensure_capacity(idx + 1)`
         else { ops := [.ensureCapacity 0 (idx + 1), .pushZeros 0 (idx - la), .push 0 bit, .fromBuffer 0], res := 0 }
     | .clearBit =>
-      let cleared := if va.testBit n then va - 2 ^ n else va
+      let cleared := if n ≤ Nat.log2 va ∧ va.testBit n then va - 2 ^ n else va
       if isSmall a then { ops := [dwOp W 2 cleared] }
       else { ops := (if idx < la then [.overwrite 0 (toWords W la cleared)] else []) ++ [.fromBuffer 0], res := 0 }
     | .clearHighBits =>
@@ -100,7 +102,8 @@ def fragSignedDiv (kind : Nat) (f : Form) (na : Bool) (a : List Nat) (nb : Bool)
 /-- `IBig << n` (by value / by reference): the `UBig` skeleton on the magnitude, `with_sign(sign)` -/
 def fragSignedShl (byVal : Bool) (na : Bool) (a : List Nat) (rhs : Nat) : Frag :=
   let body := (fragShl W mx byVal a rhs).noIntoTyped
-  { body with ops := (if byVal then [.intoSignTyped 0] else []) ++ body.ops ++ [.withSign body.res na] }
+  { body with ops := (if byVal then [.intoSignTyped 0] else []) ++ body.ops ++
+      (if body.panic.isSome then [] else [.withSign body.res na]) }
 
 /-- `IBig >> n`: positive — the `UBig` skeleton; negative — `-IBig(mag >> n) - IBig::from(b)` with
     `b = mag.are_low_bits_nonzero(n)`: the shifted magnitude is negated in place, `IBig::from(bool)` is an inline value
@@ -112,8 +115,8 @@ def fragSignedShr (sqrSimple : Nat) (byVal : Bool) (na : Bool) (a : List Nat) (r
   if !na then { body with ops := pre ++ body.ops }
   else
     let va := wval W a
-    let q := va / 2 ^ rhs
-    let lowNonzero := decide (va % 2 ^ rhs ≠ 0)
+    let q := shrNat va rhs
+    let lowNonzero := lowBitsNonzero va rhs
     let bv := if lowNonzero then 1 else 0
     let qws := toWords W (wordLen W q) q
     let bws := toWords W (wordLen W bv) bv
